@@ -264,7 +264,10 @@ func c14Sched(c *vrep.Ctx) {
 		pol = vsync.Preemption
 	}
 	accessYields := c.Param("accessyields", "no") == "yes"
-	allowed := c14Allowed(ops, precomputed)
+	// the sequential reference outcomes are computed AFTER the first controlled execution of this
+	// process: whatever the library remembers process-wide (a lazily filled table) is then first
+	// written by overlapping calls under the monitor, not by the reference runs
+	var allowed map[string]bool
 	var desc []string
 	for _, o := range ops {
 		desc = append(desc, fmt.Sprintf("%s(%q)", o.kind, o.arg))
@@ -306,6 +309,9 @@ func c14Sched(c *vrep.Ctx) {
 			r.Note = map[string]interface{}{"horizon": true}
 			return
 		default:
+			if allowed == nil {
+				allowed = c14Allowed(ops, precomputed)
+			}
 			if !allowed[strings.Join(got, " || ")] {
 				var al []string
 				for a := range allowed {
